@@ -1,3 +1,6 @@
+\* Leg A by hand:  tlc -config MC_Monitor.cfg MC_Monitor.tla   (about 5 s; the check writes its own cfg)
+\* Rev / Mir = FALSE / FALSE is the behaviour of the pinned commit (C14 is then violated by the MODEL:
+\* a hypothesis that leg B confirms on the real code); TRUE / TRUE is the repaired behaviour.
 SPECIFICATION Spec
 CONSTANTS
   Cat = "q"
